@@ -121,7 +121,7 @@ func c04(c *Ctx) {
 	}
 	// R6: what Get returns
 	for _, ret := range core.Returns(m.get) {
-		v := ret.Results[0]
+		v := core.ResolveSpill(ret.Results[0])
 		if core.IsNilConst(v) {
 			continue
 		}
